@@ -1109,6 +1109,67 @@ func tail(s string, n int) string {
 	return s
 }
 
+// placeholderRefresh: a placeholder names a source, not a value: the same ${env:…} or
+// ${property:…} text decoded again after its source has changed must give the new value, and
+// must be rejected once the variable or key is gone.
+func placeholderRefresh(res *vkit.Result, dir string) {
+	read := func(ph string) (time.Duration, error) {
+		ec, _, err := decodeFull(poolWith("gun", map[string]any{"type": "http", "target": "127.0.0.1:8080", "dial": map[string]any{"timeout": ph}}))
+		if err != nil {
+			return 0, err
+		}
+		g, err := ec.Pools[0].NewGun()
+		if err != nil {
+			return 0, err
+		}
+		v, ok := findType(g, reflect.TypeOf(phttp.GunConfig{}))
+		if !ok {
+			return 0, fmt.Errorf("no config in %T", g)
+		}
+		return readable(v).Interface().(phttp.GunConfig).Client.Dialer.Timeout, nil
+	}
+	propFile := filepath.Join(dir, "refresh.properties")
+	type step struct {
+		set  string // "" = remove the variable / key
+		want time.Duration
+	}
+	steps := []step{{"3s", 3 * time.Second}, {"9s", 9 * time.Second}, {"9s", 9 * time.Second}, {"", 0}, {"4s", 4 * time.Second}}
+	for _, how := range []string{"env", "property"} {
+		ph := "${env:VERIF_C17_REFRESH}"
+		if how == "property" {
+			ph = "${property:" + propFile + "#refresh.key}"
+		}
+		for i, st := range steps {
+			if how == "env" {
+				if st.set == "" {
+					os.Unsetenv("VERIF_C17_REFRESH")
+				} else {
+					os.Setenv("VERIF_C17_REFRESH", st.set)
+				}
+			} else {
+				content := "other=1\n"
+				if st.set != "" {
+					content += "refresh.key=" + st.set + "\n"
+				}
+				_ = os.WriteFile(propFile, []byte(content), 0o644)
+			}
+			cs := map[string]any{"placeholder": ph, "step": i, "source_now": st.set, "history": steps[:i+1]}
+			got, err := read(ph)
+			switch {
+			case st.set == "" && err == nil:
+				res.Violate("C17/placeholder-refresh/"+how+"/gone-accepted", fmt.Sprintf("the %s behind the placeholder no longer exists, yet the config was accepted with dial.timeout = %v", how, got), cs)
+			case st.set != "" && err != nil:
+				res.Violate("C17/placeholder-refresh/"+how+"/valid-config-rejected", fmt.Sprintf("rejected: %v", err), cs)
+			case st.set != "" && got != st.want:
+				res.Violate("C17/placeholder-refresh/"+how+"/stale-value", fmt.Sprintf("dial.timeout decoded as %v, the %s now says %s", got, how, st.set), cs)
+			}
+			res.Count("placeholder_refresh_steps", 1)
+			res.Eval("placeholder-refresh/"+how+"/"+fmt.Sprint(i), true)
+		}
+	}
+	os.Unsetenv("VERIF_C17_REFRESH")
+}
+
 func main() {
 	// The property resolver and answlog read and write the real filesystem.
 	vkit.Fs()
@@ -1132,6 +1193,7 @@ func main() {
 	_ = vkit.WriteMemAt("/c17/gscn.yaml", []byte("calls:\n  - name: c\n    call: target.TargetService.Hello\n    payload: '{}'\nscenarios:\n  - name: s\n    requests: [c]\n"))
 
 	unknownKeys(res, aux)
+	placeholderRefresh(res, aux)
 	requiredKeys(res)
 	for _, c := range comps() {
 		wrongAndBad(res, c, propFile)
